@@ -432,7 +432,14 @@ static bool gen_c15(uint64_t seed, const std::string &tier, uint64_t i, Plan &p)
     Json sc = Json::obj(); sc.set("op", "script").set("rcpt", a); Json at = Json::arr(); int nz = (int)r.range(0, 6);
     for (int y = 0; y < nz; y++) at.push(Json::obj().set("v", "Z").set("text", "later").set("lat", (long long)(r.chance(0.6) ? 0 : r.range(1, 30))));
     at.push(Json::obj().set("v", r.chance(0.7) ? "K" : "D").set("text", "fin")); sc.set("attempts", at);
-    p.ops.push(sc); p.ops.push(inj);
+    p.ops.push(sc);
+    if (r.chance(0.4)) {   // a second recipient on the other channel with a back-off history of its own: each channel file carries its own schedule
+      std::string b = (a[0] == 'l' ? "r" : "l") + std::to_string(m + 1) + "b"; b += b[0] == 'l' ? "@l.example" : "@r.example"; rc.push(b); inj.set("rcpts", rc);
+      Json sc2 = Json::obj(); sc2.set("op", "script").set("rcpt", b); Json at2 = Json::arr(); int nz2 = (int)r.range(0, 6);
+      for (int y = 0; y < nz2; y++) at2.push(Json::obj().set("v", "Z").set("text", "later").set("lat", (long long)(r.chance(0.6) ? 0 : r.range(1, 30))));
+      at2.push(Json::obj().set("v", r.chance(0.7) ? "K" : "D").set("text", "fin")); sc2.set("attempts", at2); p.ops.push(sc2);
+    }
+    p.ops.push(inj);
     if (r.chance(0.6)) p.ops.push(Json::obj().set("op", "sleep").set("s", (long long)r.pick(std::vector<int64_t>{1, 7, 99, 100, 101, 399, 400, 401, 1000, 5000})));
   }
   int nev = (int)r.below(4);
@@ -561,6 +568,14 @@ static bool gen_c14(uint64_t seed, const std::string &tier, uint64_t i, Plan &p)
     inj.set("rcpts", rc);
     p.ops.push(inj);
     if (r.chance(0.4)) p.ops.push(Json::obj().set("op", "yield").set("n", (long long)r.range(1, 200)));
+  }
+  // configuration rereads while mail is in the queue (first attempts made, some recipients deferred): one that succeeds, then sometimes one that fails half-way (same file contents):
+  // the virtual-domain table used for routing and for naming recipients in bounces must stay the one last read successfully
+  if (vd && r.chance(0.3)) {
+    // (settle: wait until the daemon is up and idle, so that the signal finds it and the reread completes before the next step)
+    p.ops.push(Json::obj().set("op", "settle").set("max_s", 1)); p.ops.push(Json::obj().set("op", "signal").set("to", "qmail-send").set("sig", "HUP")); p.ops.push(Json::obj().set("op", "settle").set("max_s", 1));
+    if (r.chance(0.7)) { Fault f; f.actor = "qmail-send"; f.call = r.pick(std::vector<CallId>{C_OPEN, C_READ}); f.path = r.chance(0.7) ? "/control/virtualdomains" : "/control/locals"; f.nth = 3; f.kind = "error"; f.err = r.pick(std::vector<int>{EIO, ENFILE, EACCES, ENOMEM}); p.faults.push_back(f);
+      p.ops.push(Json::obj().set("op", "signal").set("to", "qmail-send").set("sig", "HUP")); p.ops.push(Json::obj().set("op", "settle").set("max_s", 1)); }
   }
   if (!scripted.count(dbto)) script(dbto, 1, true);
   if (r.chance(0.2)) { p.ops.push(Json::obj().set("op", "sleep").set("s", (long long)r.range(1, 500))); p.ops.push(Json::obj().set("op", "signal").set("to", "qmail-send").set("sig", "ALRM")); }
